@@ -227,13 +227,14 @@ def random_blockmap(rng, geo):
     names = geo.block_name_list
     if not names or rng.random() < 0.5:
         return {}
-    src = rng.sample(names, max(1, len(names) // 3))
+    src = rng.sample(names, min(3000, max(1, len(names) // 3)))
     mp = {}
     used = set(names)
+    L = 'ABCDEFGHIJKLMNOPQRSTUVWXYZ'
     for s in src:
-        n = 'M%s%s%02d' % (rng.choice('ABCDEFGH'), rng.choice('ABCDEFGH'), rng.randint(10, 99))
+        n = '%s%s%s%02d' % (rng.choice('MNPQ'), rng.choice(L), rng.choice(L), rng.randint(10, 99))       # 240 000 names
         while n in used:
-            n = 'M%s%s%02d' % (rng.choice('ABCDEFGH'), rng.choice('ABCDEFGH'), rng.randint(10, 99))
+            n = '%s%s%s%02d' % (rng.choice('MNPQ'), rng.choice(L), rng.choice(L), rng.randint(10, 99))
         used.add(n)
         mp[s] = n
     return mp
@@ -309,7 +310,11 @@ def run_shipped(ctx, spec):
             with ctx.guard(desc, where='load') as g:
                 geo = geos.load_shipped(name)
                 if name == 'g3':
+                    # not a valid mesh as shipped (missing connections, an orphan node); repaired,
+                    # then the derived name lists are refreshed as a careful caller would (that
+                    # check(fix=True) leaves them stale is C10 matter)
                     geo.check(fix=True, silent=True)
+                    geos.refresh(geo)
             if g.raised is not None:
                 continue
             if v > 0:
